@@ -94,6 +94,12 @@ class User:
                 'display_name': self.username, 'last_login': None}
 
 
+RARE_CALL_BOOST = {'unschedule_job': 25.0, 'deactivate_instance': 25.0, 'mark_instance_deleted': 25.0,
+                   'activate_instance': 15.0, 'mark_job_creating': 15.0, 'cancel_job_group': 15.0,
+                   'commit_batch_update': 15.0, 'mark_job_started': 5.0, 'mark_job_complete': 5.0,
+                   'schedule_job': 5.0}
+
+
 class BatchWorld:
     def __init__(self, ctx, *, n_tokens=3, users=None, db_latency_ticks=2, net_delay_ticks=4, with_driver=False):
         self.ctx = ctx
@@ -108,6 +114,7 @@ class BatchWorld:
         self.s_rand = ctx.stream('sql.rand')
         self.s_entropy = ctx.stream('entropy', 'prng')
         self.db_fault_rates = {}
+        self.ack_lost_calls = []  # (procedure, args) of CALLs whose connection was lost after they had committed
         self.faults_on = True
         self.on_commit = []
         self.fe_500 = []
@@ -126,28 +133,49 @@ class BatchWorld:
 
     # ---- database -------------------------------------------------------------------------------
     def _db_latency(self, what):
-        return self.s_db.ticks(self.db_latency_ticks)
+        lat = self.s_db.ticks(self.db_latency_ticks)
+        r = self.db_fault_rates.get('stall') if self.faults_on and self.db_fault_rates else None
+        if r and what != 'connect' and self.s_dbfault.chance(r):
+            # a statement / commit that waits a long time (row-lock waits, slow disk): widens every window between
+            # a SELECT and the statement that acts on it.  Inside a transaction the serial lock stays held meanwhile.
+            self.ctx.fault('db.stall')
+            lat += self.s_dbfault.rint(100, 4000) / 1024
+        return lat
 
     def _db_fault(self, site, conn):
         if not self.faults_on or not self.db_fault_rates:
             return None
         rates = self.db_fault_rates
+        # faults are biased towards the rare calls that create in-flight state (a uniform per-statement rate spends
+        # almost everything on the driver's polling SELECTs)
+        q = (getattr(conn, 'cur_query', None) or '').lstrip()
+        boost = 1.0
+        if q[:4].upper() == 'CALL':
+            proc = q[4:].lstrip().split('(')[0].strip().lower()
+            boost = RARE_CALL_BOOST.get(proc, 3.0)
+        def ack_lost():
+            # the connection dies after a procedure call has (internally) committed: gear.database re-issues the CALL
+            if q[:4].upper() == 'CALL':
+                self.ack_lost_calls.append((proc, tuple(getattr(conn, 'cur_args', None) or ())))
+
         if site == 'pre':
             for k in ('deadlock', 'lock_timeout', 'lost_conn'):
                 r = rates.get(k)
-                if r and self.s_dbfault.chance(r):
+                if r and self.s_dbfault.chance(min(r * boost, 0.2)):
                     self.ctx.fault('db.' + k)
                     return k
         elif site == 'post':
             r = rates.get('lost_conn_after')
-            if r and self.s_dbfault.chance(r):
+            if r and self.s_dbfault.chance(min(r * boost, 0.2)):
+                ack_lost()
                 self.ctx.fault('db.lost_conn_after_statement')
                 return 'lost_conn'
         elif site == 'commit':
             for k in ('lost_conn_before_commit', 'lost_conn_after_commit'):
                 r = rates.get(k)
-                if r and self.s_dbfault.chance(r):
+                if r and self.s_dbfault.chance(min(r * boost, 0.2)):
                     self.ctx.fault('db.' + k)
+                    ack_lost()
                     return k
         elif site == 'connect':
             r = rates.get('too_many_conn')
